@@ -36,6 +36,16 @@ def near_misses(fen):
     return out
 
 
+def same_placement(fen):
+    """the same placement and side to move with castling rights and e.p. square dropped and other move counters:
+    the static score must be the same (C14: it depends on placement and side to move only)"""
+    f = fen.split()
+    out = [" ".join([f[0], f[1], "-", "-", "99", "80"])]
+    if f[2] != "-" or f[3] != "-":
+        out.append(" ".join([f[0], f[1], "-", "-"]))
+    return out
+
+
 def _validate(exe, work, fens_path, seed, batch, tag, chunk_base=0):
     p = os.path.join(work, "eval_%s.ndjson" % tag)
     vlib.run_harness(exe, ["eval-record", "--fens", fens_path, "--seed", seed, "--batch", batch, "--chunk-base", chunk_base], stdout_path=p)
@@ -88,7 +98,7 @@ def run(prop, tier, seed):
                     for x in fens:
                         f.write(x + "\n")
                         n += 1
-                        for v in near_misses(x)[:2]:
+                        for v in near_misses(x)[:2] + same_placement(x)[:1]:
                             f.write(v + "\n")
                             n += 1
                 for j, l in enumerate(open(emit)):
@@ -97,6 +107,10 @@ def run(prop, tier, seed):
                     n += 1
                     if j % 5 == 0:
                         for v in near_misses(fen):
+                            f.write(v + "\n")
+                            n += 1
+                    if j % 3 == 1:
+                        for v in same_placement(fen):
                             f.write(v + "\n")
                             n += 1
             return r, n, _validate(exe, work, fl, seed * 17 + i, T["batch"], str(i))
